@@ -1032,7 +1032,7 @@ func (g *Gen) funcValueOpt(sc *scope, ft *Type, depth int, pipeStage bool) *Expr
 		}
 		// _.Field: only as the function argument of a slice-package higher-order
 		// function (the documented use; elsewhere its type is resolved too late)
-		if p.K == "rec" && g.fieldFnOK > 0 && !g.P.NoFieldFn {
+		if p.K == "rec" && g.fieldFnOK > 0 && !g.P.NoFieldFn && (ret.K == "int" || ret.K == "string" || ret.K == "bool") {
 			r := g.rec(p.Name)
 			for _, f := range r.Fields {
 				if r.FieldType(p, f.Name).Equal(ret) {
